@@ -99,7 +99,7 @@ def handle (l : Line) : IO Unit := do
   let sfx := excl.map fun e =>
     let ex := ((e.splitOn "+").filterMap Bytes.ofHex)
     (Spec.Name.fullNameExcluding ex sb sps).toHex
-  IO.println s!"spec {l.id} base={sb.toHex} base2={sb.toHex} parts={showHexList sps} vals={sv} fx={",".intercalate sfx} flt=ok"
+  IO.println s!"spec {l.id} base={sb.toHex} base2={sb.toHex} parts={showHexList sps} vals={sv} fx={",".intercalate sfx} flt=ok in=kept"
 
 end Driver.C05
 
